@@ -225,10 +225,11 @@ fn answer_inner(line: &str) -> String {
             let v = arg!(0);
             match Script::from_bytes(&v) {
                 Ok(s) => format!(
-                    "ok {};{};{}",
+                    "ok {};{};{};rt={}",
                     esc(s.as_str().as_bytes()),
                     esc(s.to_string().as_bytes()),
-                    b(s == s.as_str())
+                    b(s == s.as_str()),
+                    b(s.to_string().parse::<Script>().map_or(false, |y| y == s))
                 ),
                 Err(e) => p_err(&e).to_string(),
             }
@@ -237,10 +238,11 @@ fn answer_inner(line: &str) -> String {
             let v = arg!(0);
             match Region::from_bytes(&v) {
                 Ok(s) => format!(
-                    "ok {};{};{}",
+                    "ok {};{};{};rt={}",
                     esc(s.as_str().as_bytes()),
                     esc(s.to_string().as_bytes()),
-                    b(s == s.as_str())
+                    b(s == s.as_str()),
+                    b(s.to_string().parse::<Region>().map_or(false, |y| y == s))
                 ),
                 Err(e) => p_err(&e).to_string(),
             }
@@ -249,10 +251,11 @@ fn answer_inner(line: &str) -> String {
             let v = arg!(0);
             match Variant::from_bytes(&v) {
                 Ok(s) => format!(
-                    "ok {};{};{}",
+                    "ok {};{};{};rt={}",
                     esc(s.as_str().as_bytes()),
                     esc(s.to_string().as_bytes()),
-                    b(s == s.as_str())
+                    b(s == s.as_str()),
+                    b(s.to_string().parse::<Variant>().map_or(false, |y| y == s))
                 ),
                 Err(e) => p_err(&e).to_string(),
             }
@@ -305,6 +308,24 @@ fn answer_inner(line: &str) -> String {
                 Err(_) => "notutf8".to_string(),
             }
         }
+        "idem" => {
+            let v = arg!(0);
+            let a = match unic_langid::canonicalize(&v) {
+                Ok(s) => match unic_langid::canonicalize(&s) {
+                    Ok(t) => b(s == t).to_string(),
+                    Err(_) => "0".to_string(),
+                },
+                Err(_) => "e".to_string(),
+            };
+            let c = match unic_locale::canonicalize(&v) {
+                Ok(s) => match unic_locale::canonicalize(&s) {
+                    Ok(t) => b(s == t).to_string(),
+                    Err(_) => "0".to_string(),
+                },
+                Err(_) => "e".to_string(),
+            };
+            format!("ok li={} loc={}", a, c)
+        }
         "loccan" => {
             let v = arg!(0);
             match unic_locale::canonicalize(&v) {
@@ -338,11 +359,34 @@ fn answer_inner(line: &str) -> String {
         }
         #[cfg(feature = "likely")]
         "limax" | "limin" => {
+            // `ok <before> | <b1> <after1> | <b2> <after2>`: the operation applied twice
             let v = arg!(0);
             match LanguageIdentifier::from_bytes(&v) {
                 Ok(mut li) => {
-                    let r = if op == "limax" { li.maximize() } else { li.minimize() };
-                    format!("ok {} {}", b(r), render_li(&li))
+                    let r0 = render_li(&li);
+                    let b1 = if op == "limax" { li.maximize() } else { li.minimize() };
+                    let r1 = render_li(&li);
+                    let b2 = if op == "limax" { li.maximize() } else { li.minimize() };
+                    format!("ok {} | {} {} | {} {}", r0, b(b1), r1, b(b2), render_li(&li))
+                }
+                Err(e) => li_err(&e).to_string(),
+            }
+        }
+        #[cfg(feature = "likely")]
+        "liminmax" => {
+            // `ok <min(x)> | <min(max(x))> | <max(x)> | <max(min(x))>`
+            let v = arg!(0);
+            match LanguageIdentifier::from_bytes(&v) {
+                Ok(li) => {
+                    let mut a = li.clone();
+                    a.minimize();
+                    let mut c = li.clone();
+                    c.maximize();
+                    let mut bb = c.clone();
+                    bb.minimize();
+                    let mut d = a.clone();
+                    d.maximize();
+                    format!("ok {} | {} | {} | {}", render_li(&a), render_li(&bb), render_li(&c), render_li(&d))
                 }
                 Err(e) => li_err(&e).to_string(),
             }
@@ -410,9 +454,10 @@ fn answer_inner(line: &str) -> String {
             let y = arg!(1);
             match (Locale::from_bytes(&x), Locale::from_bytes(&y)) {
                 (Ok(x), Ok(y)) => format!(
-                    "ok eq={} cmp={} he={} se={} lieq={} licmp={}",
+                    "ok eq={} cmp={} rcmp={} he={} se={} lieq={} licmp={}",
                     b(x == y),
                     ord(x.cmp(&y)),
+                    ord(y.cmp(&x)),
                     b(hash_of(&x) == hash_of(&y)),
                     b(x.to_string() == y.to_string()),
                     b(x.id == y.id),
@@ -460,11 +505,20 @@ fn answer_inner(line: &str) -> String {
                 Ok(l) => {
                     let id: LanguageIdentifier = l.clone().into();
                     let aref: &LanguageIdentifier = l.as_ref();
+                    // the part of the input before the first singleton subtag, parsed as a language id
+                    let toks: Vec<&[u8]> = v.split(|c| *c == b'-' || *c == b'_').collect();
+                    let cut = toks.iter().position(|t| t.len() == 1).unwrap_or(toks.len());
+                    let pre = toks[..cut].join(&b'-');
+                    let pre_eq = match LanguageIdentifier::from_bytes(&pre) {
+                        Ok(p) => b(p == l.id).to_string(),
+                        Err(_) => "e".to_string(),
+                    };
                     format!(
-                        "ok {};ideq={};aref={}",
+                        "ok {};ideq={};aref={};pre={}",
                         render_loc(l),
                         b(id == l.id),
-                        b(*aref == l.id)
+                        b(*aref == l.id),
+                        pre_eq
                     )
                 }
                 Err(e) => loc_err(e).to_string(),
@@ -668,11 +722,12 @@ fn loc_resp(v: &[u8]) -> String {
 
 fn render_lang(l: &Language) -> String {
     format!(
-        "ok {};{};{};{}",
+        "ok {};{};{};{};rt={}",
         esc(l.as_str().as_bytes()),
         esc(l.to_string().as_bytes()),
         b(*l == l.as_str()),
-        b(l.is_empty())
+        b(l.is_empty()),
+        b(l.to_string().parse::<Language>().map_or(false, |y| y == *l))
     )
 }
 
